@@ -122,6 +122,24 @@ def generate(rng, tier):
         lines += ['dump 0', 'dump 1']
         n += 1
         yield Scn('eq%d' % n, lines, {'class': 'equivalence/' + placement, 'kind': 'eq', 'depth': fs.maxdepth, 'p0': p0, 'p1': p1})
+    # directed: an include inside every kind of section body (created at init or by the text), every placement
+    for placement in ('cwd', 'searchpath', 'absolute'):
+        for sec in (b'sec', b'm'):
+            for deep in (1, 2):
+                prefix = {'cwd': b'', 'searchpath': b'', 'absolute': b'${ROOT}/inc/'}[placement]
+                d = {'cwd': b'', 'searchpath': b'sp/', 'absolute': b'inc/'}[placement]
+                lines = ['envroot ' + hx(b'ROOT')] + gen.prelude(SCHEMA, 0) + ['init 1 0 0']
+                lines.append('file %s file %s' % (hx(d + b'in1.conf'), hx(b'a = 41\n' + (b'include("' + prefix + b'in2.conf")\n' if deep == 2 else b''))))
+                lines.append('file %s file %s' % (hx(d + b'in2.conf'), hx(b'l += {deep}\n')))
+                if placement == 'searchpath':
+                    lines += ['file %s dir' % hx(b'other'), 'searchpath 0 ' + hx(b'other'), 'searchpath 0 ' + hx(b'sp'),
+                              'searchpath 1 ' + hx(b'other'), 'searchpath 1 ' + hx(b'sp')]
+                flat = sec + b' {\n a = 41\n' + (b'l += {deep}\n' if deep == 2 else b'') + b'}\ni = 3\n'
+                main = sec + b' {\n include("' + prefix + b'in1.conf")\n}\ni = 3\n'
+                p0 = len(lines)
+                lines += ['parse_buf 0 ' + hx(flat), 'parse_buf 1 ' + hx(main), 'dump 0', 'dump 1']
+                n += 1
+                yield Scn('insec%d' % n, lines, {'class': 'in-section/' + placement, 'kind': 'eq', 'depth': deep + 1, 'p0': p0, 'p1': p0 + 1})
     # chains around the depth limit
     for depth in (1, 2, LIMIT - 1, LIMIT, LIMIT + 1, LIMIT + 2):
         lines = gen.prelude(SCHEMA, 0)
